@@ -14,10 +14,18 @@
    context (abstract/transfer syntax, accepted), file, and whether the data set bytes decode in
    the context's transfer syntax to the file's data set.
 4. TLC judges the recorded events against the property-level spec Trace_StoreScu.
+
+Growth beyond C33 (thorough tier only; findings are notes, never violations): StoreScuExch.tla
+models the whole exchange on one association (request/response sequencing, --fail-first, sync and
+--concurrency path, a scripted acceptor that answers with failure/warning status, a wrong Message
+ID Being Responded To, closes, aborts or rejects); TLC generates its complete behaviours, the real
+binary is run against the scripted acceptor, and the recorded wire/DIMSE events are checked by
+Trace_StoreScu against PS3.7 sequencing rules and the model's verdict on each run.
 """
 import collections
 import json
 import os
+import re
 
 import vlib
 
@@ -97,6 +105,166 @@ def _selftest(ctx, cases):
     ctx.extra_cov["selftest"] = "corrupted ctx_abs / data_ok / accepted / file in a recorded store event: each flagged by Trace_StoreScu; the uncorrupted copy accepted"
 
 
+def _report_bad(ctx, res, lines, cases, gen):
+    starts = [s for s, _ in cases]
+    for b in res["bad"]:
+        ln = b["l"]
+        k = max(i for i, s in enumerate(starts) if s <= ln)
+        evs = cases[k][1]
+        s = json.loads(lines[ln - 1])
+        c = evs[0]
+        fp = _fingerprint(b["why"], s)
+        desc = "files=%s policy=%s flags=%s -> file %s (class %s, ts %s) sent on context id %s (%s, %s) accepted=%s data_ok=%s %s" % (
+            [(f["cls"], f["ts"]) for f in c["files"]], [(p["abs"], p["ts"]) for p in c["policy"]],
+            " ".join(x for x, on in (("--never-transcode", c["nt"]), ("--ignore-sop-class", c["ign"]), ("--fail-first", c.get("ff")),
+                                     ("--concurrency %s" % c["conc"], c["conc"])) if on) or "(default)",
+            s["file"], s["file_cls"], s.get("file_ts"), s.get("ctx_id"), s["ctx_abs"], s["ctx_ts"], s["accepted"], s["data_ok"], s.get("why", ""))
+        ctx.violation(fp, desc, {"case": gen[k], "events": evs})
+
+
+def _extra(res):
+    m = re.search(r'<<\s*"EXTRA",\s*"((?:[^"\\]|\\.)*)"\s*>>', res["result"].out, re.S)
+    return json.loads(vlib.tla_unescape(m.group(1))) if m else []
+
+
+TAG_TEXT = {
+    "obs_abort_sent_in_reply_to_peer_abort": "after an A-ABORT from the acceptor the tool sends an A-ABORT of its own before closing (PS3.8: an aborted association is simply closed); exit status 254 on both paths",
+    "obs_abort_sent_after_association_refused": "after A-ASSOCIATE-RJ, or an A-ASSOCIATE-AC without any accepted context, the tool sends A-ABORT although no association exists",
+    "obs_continued_after_response_with_wrong_message_id": "a C-STORE-RSP whose Message ID Being Responded To differs from the request's Message ID is taken as the answer (the field is not checked)",
+    "obs_exit_0_after_broken_association_files_untransferred": "--concurrency path without --fail-first: the association broke (rejected / closed without response) and files were not transferred, yet the exit status is 0 (the synchronous path exits 254 in the same situation)",
+}
+
+
+def _exchange(ctx, scu):
+    """Specification growth beyond C33 (thorough tier): notes and extra coverage only."""
+    r = vlib.tlc(SPEC, "StoreScuExch", "MC_StoreScuExch.cfg", workers=4, timeout=2400)
+    ctx.check_model(r, "StoreScuExch")
+    ctx.require_coverage(r, ["XPropose", "XReject", "XNegotiate", "XNoneAccepted", "XSelExact", "XSelCodecFree", "XSelExplicit", "XSelImplicit",
+                             "XNoContextSkip", "XNoContextFailFirst", "XSendRq", "RspSuccess", "RspWarning", "RspMsgIdMismatchAccepted",
+                             "RspFailureContinue", "RspFailureFailFirst", "PeerClosed", "PeerAborted", "XRelease"])
+    xstates = r.distinct
+    r = vlib.tlc(SPEC, "StoreScuExch", "MC_StoreScuExch_okexit.cfg", workers=2, timeout=900)
+    ctx.cov["states"] += r.distinct
+    ctx.cov["transitions"] += r.generated
+    if not (r.error == "invariant" and r.violated == "OkMeansReleased"):
+        raise vlib.ToolError("StoreScuExch: expected the OkMeansReleased counterexample (async path exit status), got %s %s" % (r.error, r.violated))
+    cases_p = ctx.path("xcases.ndjson")
+    gr, n = vlib.tlc_generate(SPEC, "Gen_StoreScuExch", "Gen_StoreScuExch.cfg", cases_p, timeout=1200)
+    ctx.add_tlc(gr)
+    gen = vlib.read_ndjson(cases_p)
+    trace = ctx.path("xtrace.ndjson")
+    rep = vlib.run_driver("drv_storescu", ["--bin", scu, "--cases", cases_p, "--work", ctx.path("xfs"), "--out", trace, "--jobs", 6],
+                          env=ctx.env(), timeout=3000)
+    if rep["cases_not_run"] or rep["worker_panics"]:
+        raise vlib.ToolError("driver could not run %d exchange cases (%d worker panics)" % (rep["cases_not_run"], rep["worker_panics"]))
+    res = vlib.validate_trace(SPEC, "Trace_StoreScu", trace, cfg="Trace_StoreScu.cfg", timeout=1800, heap="6g")
+    ctx.add_tlc(res["result"])
+    if not res["accepted"]:
+        raise vlib.ToolError("exchange trace structure rejected at line %s: %s" % (res["line"], res["record"]))
+    with open(trace) as f:
+        lines = f.readlines()
+    cases = _split_cases(lines)
+    if len(cases) != len(gen):
+        raise vlib.ToolError("exchange trace holds %d runs, %d were generated" % (len(cases), len(gen)))
+    _report_bad(ctx, res, lines, cases, gen)        # C33 proper also holds on these runs
+    evs = [json.loads(ln) for ln in lines]
+    kinds = collections.Counter()
+    for e in evs:
+        if e["ev"] == "rsp":
+            kinds["rsp:" + e["kind"]] += 1
+        elif e["ev"] == "peer":
+            kinds["peer:" + e["what"]] += 1
+        elif e["ev"] == "assoc":
+            kinds["assoc:" + e["result"]] += 1
+        elif e["ev"] == "fin":
+            kinds["fin:" + e["how"]] += 1
+        elif e["ev"] in ("rq", "rq_part"):
+            kinds[e["ev"]] += 1
+    for need in ("rq", "rq_part", "rsp:ok", "rsp:fail", "rsp:warn", "rsp:wrong_msgid", "peer:close", "peer:abort", "assoc:rj", "assoc:ac",
+                 "fin:release", "fin:abort", "fin:eof"):
+        if not kinds.get(need):
+            raise vlib.ToolError("vacuity: no %s event recorded in the exchange runs" % need)
+    nfrag = sum(1 for e in evs if e["ev"] == "rq" and len(e["pdus"]) > 1)
+    if not nfrag:
+        raise vlib.ToolError("vacuity: no request was sent in several PDUs")
+    starts = [s for s, _ in cases]
+    tags = collections.Counter()
+    example = {}
+    for x in _extra(res):
+        tags[x["tag"]] += 1
+        if x["tag"] not in example:
+            k = max(i for i, s in enumerate(starts) if s <= x["l"])
+            c = cases[k][1][0]
+            example[x["tag"]] = {"files": [(f["cls"], f["ts"]) for f in c["files"]], "accepted": [(p["abs"], p["ts"]) for p in c["policy"]],
+                                 "concurrency": c["conc"], "fail_first": c["ff"], "acceptor_script": c["script"],
+                                 "event": {k2: v for k2, v in json.loads(lines[x["l"] - 1]).items() if k2 not in ("pdvs", "pdus")},
+                                 "exit": cases[k][1][-1].get("exit")}
+    for tag, cnt in sorted(tags.items()):
+        if tag.startswith("obs_"):
+            ctx.note("beyond C33, observation (%d runs/events): %s; e.g. %s" % (cnt, TAG_TEXT.get(tag, tag), json.dumps(example[tag])))
+        else:
+            ctx.note("beyond C33, the tool deviates from StoreScuExch.tla / PS3.7 sequencing: %s in %d events, e.g. %s" % (tag, cnt, json.dumps(example[tag])))
+    _selftest_wire(ctx, cases)
+    exact = sum(1 for g in gen if g["expect_x"]["exact"])
+    ctx.extra_cov["exchange"] = {
+        "model_states": xstates,
+        "runs_validated": len(cases),
+        "runs_compared_exactly_with_model": exact,
+        "requests_checked": kinds["rq"],
+        "requests_in_several_pdus": nfrag,
+        "events": dict(sorted(kinds.items())),
+        "findings_by_tag": dict(sorted(tags.items())),
+        "deviations_from_model_or_ps37": sum(v for k, v in tags.items() if not k.startswith("obs_")),
+        "selftest": "corrupted msgid / last-fragment flag / PDU length / early bytes / exit status in recorded events: each flagged by Trace_StoreScu",
+    }
+
+
+def _selftest_wire(ctx, cases):
+    """Corrupt recorded wire fields; the growth part of Trace_StoreScu must flag each."""
+    good = None
+    for _, evs in cases:
+        c = evs[0]
+        rqs = [e for e in evs if e["ev"] == "rq"]
+        if c["conc"] == 0 and c["script"]["kind"] == "ok" and len(rqs) == 2 and len(rqs[0]["pdus"]) > 1 and evs[-1]["exit"] == 0:
+            good = evs
+            break
+    if good is None:
+        raise vlib.ToolError("wire self-test: no clean two-request run recorded")
+
+    def mutated(f):
+        evs = json.loads(json.dumps(good))
+        f(evs, [e for e in evs if e["ev"] == "rq"])
+        return evs
+
+    def m_msgid(evs, rqs):
+        rqs[1]["msgid"] = rqs[0]["msgid"]
+
+    def m_flag(evs, rqs):
+        rqs[0]["pdvs"][-1][2] = 0
+
+    def m_pdu(evs, rqs):
+        rqs[0]["pdus"][1] = evs[0]["max_len"] + 1
+
+    def m_early(evs, rqs):
+        rqs[0]["early"] = 10
+
+    def m_exit(evs, rqs):
+        evs[-1]["exit"] = 254
+
+    muts = [("rq_message_id_reused", m_msgid), ("rq_fragment_flags_or_order_wrong", m_flag), ("pdu_longer_than_acceptor_max_length", m_pdu),
+            ("next_message_sent_before_response", m_early), ("exit_status_differs_from_model", m_exit)]
+    evs = []
+    for _, f in muts:
+        evs += mutated(f)
+    evs += good
+    p = ctx.path("selftest_wire.ndjson")
+    vlib.write_ndjson(p, evs)
+    res = vlib.validate_trace(SPEC, "Trace_StoreScu", p, cfg="Trace_StoreScu.cfg", timeout=600)
+    got = [x["tag"] for x in _extra(res)] if res["accepted"] else None
+    if got != [t for t, _ in muts]:
+        raise vlib.ToolError("wire self-test failed: expected %s, TLC reported %s" % ([t for t, _ in muts], got))
+
+
 def run(ctx):
     q = ctx.quick
     ctx.level = "model_checking"
@@ -148,19 +316,7 @@ def run(ctx):
     cases = _split_cases(lines)
     if len(cases) != len(gen):
         raise vlib.ToolError("trace holds %d runs, %d were generated" % (len(cases), len(gen)))
-    starts = [s for s, _ in cases]
-    for b in res["bad"]:
-        ln = b["l"]
-        k = max(i for i, s in enumerate(starts) if s <= ln)
-        evs = cases[k][1]
-        s = json.loads(lines[ln - 1])
-        c = evs[0]
-        fp = _fingerprint(b["why"], s)
-        desc = "files=%s policy=%s flags=%s -> file %s (class %s, ts %s) sent on context id %s (%s, %s) accepted=%s data_ok=%s %s" % (
-            [(f["cls"], f["ts"]) for f in c["files"]], [(p["abs"], p["ts"]) for p in c["policy"]],
-            " ".join(x for x, on in (("--never-transcode", c["nt"]), ("--ignore-sop-class", c["ign"]), ("--concurrency %s" % c["conc"], c["conc"])) if on) or "(default)",
-            s["file"], s["file_cls"], s.get("file_ts"), s.get("ctx_id"), s["ctx_abs"], s["ctx_ts"], s["accepted"], s["data_ok"], s.get("why", ""))
-        ctx.violation(fp, desc, {"case": gen[k], "events": evs})
+    _report_bad(ctx, res, lines, cases, gen)
     # drift against the implementation-shaped model (notes only) + coverage
     matrix = collections.Counter()
     drift = collections.Counter()
@@ -213,3 +369,5 @@ def run(ctx):
     for c in gen[:1] + gen[len(gen) // 2:len(gen) // 2 + 2]:
         ctx.sample(c)
     ctx.exhaustive = True
+    if not q:
+        _exchange(ctx, scu)
